@@ -18,6 +18,10 @@ pub struct Case {
     pub sizes: Vec<u32>,
     /// renormalisation happens after this many match finder steps
     pub bias_k: Option<u32>,
+    /// Some(d): the input is extended / cut so that it ends d bytes after the physical end of the
+    /// LZ window buffer (see codec::fit_to_window)
+    #[serde(default)]
+    pub fit: Option<i8>,
 }
 
 pub struct C01;
@@ -103,6 +107,7 @@ fn assemble(
                 plan,
                 sizes,
                 bias_k,
+                fit: None,
             }
         })
         .boxed()
@@ -136,7 +141,7 @@ impl Property for C01 {
     const ID: &'static str = "C01";
 
     fn families(_tier: Tier) -> u32 {
-        20
+        22
     }
 
     fn strategy(tier: Tier, family: u32) -> BoxedStrategy<Case> {
@@ -213,6 +218,32 @@ impl Property for C01 {
                 plan_strategy(),
                 true,
             ),
+            // the input ends exactly at (or 1-2 bytes around) the physical end of the window buffer
+            20 | 21 => (
+                assemble(
+                    if family == 20 {
+                        data_strategy(4, 30_000)
+                    } else {
+                        (300_000u32..600_000, any::<u64>(), data_strategy(2, 20_000))
+                            .prop_map(|(len, seed, tail)| {
+                                let mut segs = vec![Seg::Mixed { len, seed }];
+                                segs.extend(tail.segs);
+                                Data { segs }
+                            })
+                            .boxed()
+                    },
+                    small_dict_opts(false),
+                    false,
+                    plan_strategy(),
+                    false,
+                ),
+                prop_oneof![4 => Just(0i8), 1 => Just(-1i8), 1 => Just(1i8), 1 => -3i8..=3],
+            )
+                .prop_map(|(mut c, d)| {
+                    c.fit = Some(d);
+                    c
+                })
+                .boxed(),
             // > 2 MiB highly compressible (LZMA2 uncompressed-size chunk limit)
             _ => assemble(
                 (
@@ -263,15 +294,23 @@ impl Property for C01 {
             ("l2_chunks_no_reset", 1.0),
             ("l2_restart", 1.0),
             ("preset", 5.0),
+            ("finish_at_window_end", 2.0),
         ]
     }
 
     fn run(case: &Case, obs: &mut Obs) -> Outcome {
-        let data = case.data.expand();
+        let mut data = case.data.expand();
         let preset = case.preset.as_ref().map(|p| p.expand());
         let preset = preset.as_deref().filter(|p| !p.is_empty());
+        if let Some(d) = case.fit {
+            let probe = |bytes: &[u8]| encode_lzma(bytes, &case.opts, preset, &case.framing, &case.plan).is_ok();
+            if let Some(fitted) = fit_to_window(&data, d as i32, 1 << 20, &probe) {
+                data = fitted;
+                obs.class("fitted");
+            }
+        }
 
-        let _ = lzma_rust2::verif_api::take_counters();
+        let _ = crate::engine::take_counters();
         if let Some(k) = case.bias_k {
             let bias = 0x7FFF_FFFFi32
                 .wrapping_sub(case.opts.dict_size as i32 + 1)
@@ -280,7 +319,9 @@ impl Property for C01 {
         }
         let packed = encode_lzma(&data, &case.opts, preset, &case.framing, &case.plan);
         lzma_rust2::verif_api::set_lz_pos_bias(0);
-        let counters = lzma_rust2::verif_api::take_counters();
+        let counters = crate::engine::take_counters();
+        let gap = lzma_rust2::verif_api::take_last_finish_gap();
+        obs.class_if(gap == 0, "finish_at_window_end");
         let packed = packed?;
 
         obs.class_if(counters[0] > 0, "window_moved");
